@@ -534,10 +534,11 @@ theorem malformed_flagged_pound_p (hu : AsciiUC uc) (cs : List Char)
 
 /-! ### witnesses: flag combinations that yield no message -/
 
-/-- F11: an unterminated bit string with two consecutive underscores yields NO lexer error. -/
-theorem witness_unterminated_bitstring_double_underscore :
-    (LexedStr.new C14.ucAscii ['"', '0', '_', '_', '1']).map (fun l => (l.kind, l.error)) =
-      some ([.BIT_STRING, .EOF], []) := by
+/-- F11 (repaired by a `fix:` commit): an unterminated bit string with two consecutive underscores
+is diagnosed on its token like every other unterminated bit string. -/
+theorem unterminated_bitstring_double_underscore_diagnosed :
+    (LexedStr.new C14.ucAscii ['"', '0', '_', '_', '1']).map (fun l => (l.kind, l.error.map (·.2))) =
+      some ([.BIT_STRING, .EOF], [0]) := by
   rw [new_eq]; rfl
 
 /-- the raw token of the F11 witness: unterminated, consecutive underscores -/
